@@ -154,7 +154,9 @@ def _eid(fmt, num, tail, rng):
 def _gen_domain(tier, rng):
   nums = [0, 1, 999, 1000, 2099, 2100, 2101, 2350, 2598, 2599, 2600, 2601, 3599, 3600, 4099, 9999]
   nums += [rng.randrange(10000) for _ in range({'quick': 20, 'thorough': 300, 'search': 100}[tier])]
-  if tier != 'quick':
+  if tier == 'thorough':
+    nums += list(range(10000))        # every 4-digit writer number
+  elif tier != 'quick':
     nums += list(range(2050, 2650))
   for n in nums:
     for fmt in (25, 8):
@@ -191,7 +193,7 @@ def generate(tier, rng):
     for m in ROW_MODELS:
       for rep in range(1 if tier == 'quick' else 3):
         yield {'kind': 'rowindep', 'model': m, 'seed': rng.randrange(2 ** 31), 'batch': rng.choice([3, 4, 5])}
-    for t in ('SHAKESPEARE_CHARACTER', 'STACKOVERFLOW_WORD', 'CIFAR100_LOGISTIC'):
+    for t in ('SHAKESPEARE_CHARACTER', 'STACKOVERFLOW_WORD', 'CIFAR100_LOGISTIC', 'EMNIST_CONV', 'EMNIST_LOGISTIC', 'EMNIST_DENSE'):
       yield {'kind': 'tasks', 'task': t}
 
 
@@ -720,6 +722,14 @@ def _run_tasks(case):
         return ['w%d' % i for i in range(n)]
       patch(datasets.stackoverflow, 'load_split', load_split)
       patch(datasets.stackoverflow, 'default_vocab', default_vocab)
+    elif task.startswith('EMNIST'):
+      rs = np.random.RandomState(0)
+      raw = {b'0123456789abcdef:f2100_07': {'pixels': rs.rand(3, 28, 28).astype(np.float32), 'label': np.array([0, 35, 61], np.int32)}}
+
+      def load_split(split, only_digits=False, mode='sqlite', cache_dir=None):
+        calls['only_digits'] = bool(only_digits)
+        return fedjax.InMemoryFederatedData(raw)
+      patch(datasets.emnist, 'load_split', load_split)
     else:
       rs = np.random.RandomState(0)
       raw = {b'c0': {'image': rs.randint(0, 256, size=(3, 32, 32, 3)).astype(np.uint8), 'coarse_label': np.zeros(3, np.int64),
@@ -731,7 +741,7 @@ def _run_tasks(case):
     train, test, model = tasks.get_task(task)
     obs = {'status': 'ok', 'calls': calls}
     for nm, fd in (('train', train), ('test', test)):
-      ds = fd.get_client(b'c0')
+      ds = fd.get_client(b'0123456789abcdef:f2100_07' if task.startswith('EMNIST') else b'c0')
       b = next(iter(ds.padded_batch(batch_size=4)))
       params = _cached(('task_params', task), lambda: model.init(jax.random.PRNGKey(0)))
       pred = np.asarray(model.apply_for_eval(params, b))
@@ -1014,7 +1024,7 @@ def oracle(case, obs):
       out.append(('tasks-shapes', f'{t}: model output {o["pred_shape"]} does not line up with targets {o["y_shape"]}'))
     if o['y_max'] >= o['pred_shape'][-1]:
       out.append(('tasks-vocab', f'{t}: a label {o["y_max"]} is outside the model output size {o["pred_shape"][-1]}'))
-    if t != 'CIFAR100_LOGISTIC' and o['x_max'] >= o['pred_shape'][-1]:
+    if t in ('SHAKESPEARE_CHARACTER', 'STACKOVERFLOW_WORD') and o['x_max'] >= o['pred_shape'][-1]:
       out.append(('tasks-vocab', f'{t}: an input id {o["x_max"]} is outside the embedding size {o["pred_shape"][-1]}'))
   if t == 'SHAKESPEARE_CHARACTER' and (obs['train']['pred_shape'][-1] != SH_VOCAB_SIZE or obs['train']['x_shape'][1] != obs['test']['x_shape'][1]):
     out.append(('tasks-vocab', 'Shakespeare task: model vocabulary != dataset VOCAB_SIZE, or train/test lengths differ'))
@@ -1022,6 +1032,8 @@ def oracle(case, obs):
     n = obs['calls'].get('default_vocab_size')
     if n is None or obs['train']['pred_shape'][-1] != n + 4 or obs['train']['x_shape'][1] != obs['test']['x_shape'][1]:
       out.append(('tasks-vocab', 'Stack Overflow task: model vocabulary != tokenizer vocabulary + 4, or train/test max_length differ'))
+  if t.startswith('EMNIST') and (obs['train']['x_shape'][1:] != [28, 28, 1] or obs['train']['pred_shape'][-1] != (10 if obs['calls'].get('only_digits') else 62)):
+    out.append(('tasks-shapes', 'EMNIST task: images are not 28x28x1 or the number of classes does not match only_digits'))
   if t == 'CIFAR100_LOGISTIC' and obs['train']['x_shape'][1:] != [24, 24, 3]:
     out.append(('tasks-shapes', 'CIFAR task: images are not 24x24x3'))
   return out
